@@ -410,7 +410,16 @@ class Evaluator:
         return T("attr", n, mod, obj=self.ev(n.value, sc, mod), name=n.attr)
 
     def e_BinOp(self, n, sc, mod):
-        return T("bin", n, mod, opname=type(n.op).__name__, l=self.ev(n.left, sc, mod), r=self.ev(n.right, sc, mod))
+        l, r = self.ev(n.left, sc, mod), self.ev(n.right, sc, mod)
+        # integer arithmetic on bound constants (argnum - 1 with argnum bound by partial) folds
+        if l.op == "const" and r.op == "const" and type(l.value) is int and type(r.value) is int:
+            try:
+                v = {"Add": lambda a, b: a + b, "Sub": lambda a, b: a - b, "Mult": lambda a, b: a * b, "FloorDiv": lambda a, b: a // b, "Mod": lambda a, b: a % b}.get(type(n.op).__name__)
+                if v is not None:
+                    return const(v(l.value, r.value), n)
+            except ZeroDivisionError:
+                pass
+        return T("bin", n, mod, opname=type(n.op).__name__, l=l, r=r)
 
     def e_UnaryOp(self, n, sc, mod):
         x = self.ev(n.operand, sc, mod)
